@@ -181,10 +181,19 @@ def inf_level(p, res):
         if isinstance(arg, ast.BinOp) and isinstance(arg.op, ast.Sub):
             lin = linear(arg.left)
             off = src_of(arg.right)
-        guard_ok = any(v and 'should_format(' in V.x(ast.parse(k, mode='eval').body) for k, v in facts.items()) and facts.get('index == len(items) - 1') is True and facts.get('state.parent') is True
+        from ..dtable import canon_atom
+        cfacts = {}
+        for k, v in facts.items():
+            ck, cv = canon_atom(k, v)
+            cfacts[ck] = cv
+        last_key, last_pol = canon_atom('index == len(items) - 1', True)
+        is_last = cfacts.get(last_key) is last_pol
+        facts = dict(facts)
+        facts['index == len(items) - 1'] = True if is_last else (None if not any('index' in k and 'len(items)' in k for k in facts) else facts.get('index == len(items) - 1', False))
+        guard_ok = any(v and 'should_format(' in V.x(ast.parse(k, mode='eval').body) for k, v in facts.items() if k != 'index == len(items) - 1') and is_last and facts.get('state.parent') is True
         if lin == {'out.level': 1} and off in ('(0 if is_snippet(state.parent) else 1)', '0 if is_snippet(state.parent) else 1') and guard_ok:
             res.ok('closing tag line: newline at level - 1 after the last formatted child')
-        elif lin == {'out.level': 1} and guard_ok is False and (facts.get('index == len(items) - 1') is not True):
+        elif lin == {'out.level': 1} and guard_ok is False and not is_last and not any('index' in k and 'items' in k for k in facts if k != 'index == len(items) - 1'):
             res.bad(F('INF-LEVEL', el, c, src_of(c), "the parent's closing line is emitted after a child that is not the last one"))
         else:
             res.undecided('closing line of the last child: %s under %s' % (src_of(c), sorted(facts)), 'push_newline(level - (0 if snippet parent else 1)) after the last formatted child of a parent')
